@@ -83,6 +83,8 @@ def scan_assumptions(text):
         code = ln.split("//")[0]
         for rx, kind in ASSUME_PATTERNS:
             if rx.search(code):
+                if "lemma proved in unit" in ln:
+                    kind = "imported-lemma(" + ln.split("lemma proved in unit")[1].strip() + ")"
                 ctx = ""
                 for j in range(n, min(n + 12, len(lines))):
                     m = re.search(r"\b(?:fn|const|struct|enum|type|static)\s+(\w+)", lines[j])
